@@ -210,10 +210,63 @@ Theorem C16_utf8_decode_injective : forall a b cs,
 Proof. exact decode_injective. Qed.
 Print Assumptions C16_utf8_decode_injective.
 
+(* ------------------------------------------------------------ configuration time ---------------------------------
+   [setup]: what the application wrote (root_dir= / path=, package_name=), the package of the module that creates the view
+   (for add_static_view: the Configurator's package) and pkg_resources' package directories.  [configure] follows
+   static_view.__init__ / asset.resolve_asset_spec and, for add_static_view, Configurator._make_spec + StaticURLInfo.add.
+   [designated_dir] says declaratively which directory each FORM designates: an absolute path itself; 'pkg:dir' = dir in
+   the directory of pkg; anything else = relative to the directory of package_name= or, without it, of the creating package. *)
+Require Import Verif.Proofs.C16_c.
+
+(* the root of the instance the code builds is the designated directory -- every form, every mounting.  [setup_ok]: package
+   names are not empty (an empty one is falsy: see the boundary in Example configured_forms), the caller's has no ':' *)
+Theorem C16_configured_root : forall s,
+  setup_ok s -> spec_root (configure s) = os_resolve (designated_dir s).
+Proof. exact configured_root. Qed.
+Print Assumptions C16_configured_root.
+
+(* well-formedness of what was written carries over to the instance, so every theorem above applies to it *)
+Theorem C16_configured_wf : forall s, wf_setup s -> wf (configure s).
+Proof. exact configured_wf. Qed.
+Print Assumptions C16_configured_wf.
+
+(* every path handed to the file system (find_resource_path's exists, isdir, getsize, open) lies at or below the
+   directory the application designated, in whatever form it was written and whichever way the view was created *)
+Theorem C16_containment_configured : forall s fs rqs,
+  wf_setup s -> is_dir (walk fs [] (os_resolve (designated_dir s))) = true ->
+  Forall (fun rl => forallb (fun e => beneath (os_resolve (designated_dir s)) (snd e)) (snd rl) = true)
+         (run_model (configure s) fs rqs).
+Proof. exact containment_configured. Qed.
+Print Assumptions C16_containment_configured.
+
+(* the specification the correspondence run judges with (root := designated directory) is the specification of the
+   instance the code builds *)
+Theorem C16_spec_configured : forall s rq fs,
+  setup_ok s -> spec_response (configure s) rq fs = spec_response (spec_config s) rq fs.
+Proof. exact spec_configured. Qed.
+Print Assumptions C16_spec_configured.
+
+(* end to end: configuration as written -> instance -> every answer of every request sequence conforms to the
+   specification whose root is the designated directory *)
+Theorem C16_serves_designated_configured : forall s fs rqs,
+  wf_setup s -> is_dir (walk fs [] (os_resolve (designated_dir s))) = true -> host_ok (s_base s) ->
+  Forall (decodable (s_base s)) rqs ->
+  Forall (fun x => conforms (fst (snd x)) (spec_response (spec_config s) (fst x) fs) = true)
+         (combine rqs (run_model (configure s) fs rqs)).
+Proof. exact serves_designated_configured. Qed.
+Print Assumptions C16_serves_designated_configured.
+
 (* ------------------------------------------------------------ the regenerated program ------------------------------
    Gen/Facts_C16_gen.v is re-translated from src/pyramid/static.py on every run (harness/c16/translate.py: control
    flow mechanically, leaves through a primitive table).  The regenerated functions equal the hand-written model: *)
 Require Import Verif.Lib.Utf8 Verif.Model.C16_prims Verif.Gen.Facts_C16_gen Verif.Proofs.C16_gen.
+
+(* traversal.split_path_info, translated from src/pyramid/traversal.py: equal to the model's splitter (parametrised over the
+   regenerated literals) and to Lib/PathNorm.split_path_info, which the specification and every theorem above use *)
+Theorem C16_gen_split_path_info_is_model : forall p,
+  gen_split_path_info p = split_path_info_f p /\ gen_split_path_info p = split_path_info p.
+Proof. exact gen_split_path_info_both. Qed.
+Print Assumptions C16_gen_split_path_info_is_model.
 
 Theorem C16_gen_contains_invalid_is_model : forall item, gen_contains_invalid item = contains_invalid_char item.
 Proof. exact gen_contains_invalid_is_model. Qed.
@@ -238,6 +291,21 @@ Theorem C16_gen_compile_content_encodings_is_model : forall encmap encs,
   gen_compile_content_encodings encmap encs = compile_encodings encs encmap.
 Proof. exact gen_compile_content_encodings_is_model. Qed.
 Print Assumptions C16_gen_compile_content_encodings_is_model.
+
+(* static_view.__init__ (attribute stores collected into a record; every attribute bound exactly once on every path) *)
+Theorem C16_gen_init_is_model : forall encmap caller root_dir package_name use_subpath index reload encs,
+  gen_init encmap caller root_dir package_name use_subpath index reload encs =
+  init_model encmap caller root_dir package_name use_subpath index reload encs.
+Proof. exact gen_init_is_model. Qed.
+Print Assumptions C16_gen_init_is_model.
+
+Theorem C16_gen_init_spec : forall encmap caller root_dir package_name use_subpath index reload encs,
+  let v := gen_init encmap caller root_dir package_name use_subpath index reload encs in
+  (v_package_name v, v_docroot v) = init_root root_dir package_name caller /\
+  v_norm_docroot v = normpath (v_docroot v) /\ v_use_subpath v = use_subpath /\ v_index v = index /\
+  v_reload v = reload /\ v_encodings v = compile_encodings encs encmap /\ v_filemap v = [].
+Proof. exact gen_init_spec. Qed.
+Print Assumptions C16_gen_init_spec.
 
 Theorem C16_gen_find_resource_path_is_model : forall c fs n fm,
   gen_find_resource_path c fs n fm = ((Val (frp_value c fs n), fm), [(0, os_path c n)]).
